@@ -154,12 +154,14 @@ def value(r, depth=2, sc=scalar):
         n = big_n(r)  # a long nested container
         depth = 1
     if c < 75:
-        out = [value(r, depth - 1, sc) for _ in range(n)]
+        out = [value(r, depth - 1, sc) for _ in range(n)] if n <= 40 else fill(r, n, sc)
         if n and r.pct() < 10:
             t = twin(r, out)
             if t is not None:
                 out.append(t)
         return out
+    if n > 40:
+        return {f"k{i}": v for i, v in enumerate(fill(r, n, sc))}
     return {key(r): value(r, depth - 1, sc) for _ in range(n)}
 
 
@@ -220,10 +222,19 @@ def twin_path(r, path):
 BIG_SIZES = [9, 12, 17, 33, 40, 65, 100, 129, 257, 300]
 
 
+def fill(r, n, sc):
+    """n scalars; beyond 40 items a dozen drawn values are repeated (a long container must not use up the tape
+    that the rest of the case is decoded from)."""
+    if n <= 40:
+        return [sc(r) for _ in range(n)]
+    base = [sc(r) for _ in range(12)]
+    return [base[i % 12] for i in range(n)]
+
+
 def big_n(r):
     """A container size around the usual thresholds (8, 16, 32, 64, 100, 128, 256)."""
-    if r.pct() < 4:
-        return r.choice([1025, 1500, 2049])  # beyond 1000 / 1024 (rarely: such documents are slow to judge)
+    if r.pct() < 3:
+        return r.choice([1001, 1025, 1100])  # beyond 1000 / 1024 (rarely: such documents are slow to judge)
     return r.choice(BIG_SIZES[: 6 if r.coin(70) else len(BIG_SIZES)])
 
 
@@ -257,7 +268,7 @@ def list_doc(r, depth=3, sc=scalar):
     c0 = r.pct()
     if c0 < 4:
         # occasionally a long, flat container (size-dependent behaviour, e.g. a fast path)
-        return [sc(r) for _ in range(big_n(r))]
+        return fill(r, big_n(r), sc)
     if c0 < 6 and depth >= 3:
         d = deep_chain(r, sc)
         return d if isinstance(d, list) else [d]
@@ -275,8 +286,10 @@ def map_doc(r, depth=3, sc=scalar):
     d = {}
     c0 = r.pct()
     if c0 < 4:
-        for i in range(big_n(r)):
-            d[f"k{i}" if r.coin(70) else i] = sc(r)
+        n_ = big_n(r)
+        strk = r.coin(70)
+        for i, v in enumerate(fill(r, n_, sc)):
+            d[(f"k{i}" if strk else i) if n_ > 40 else (f"k{i}" if r.coin(70) else i)] = v
         return d
     if c0 < 6 and depth >= 3:
         ch = deep_chain(r, sc)
